@@ -940,6 +940,69 @@ def sess_structured_failures(w):
     w.trace.append({'step': len(w.trace), 'structured_frames': [n for n, _ in frames][:400]})
 
 
+@atom(layer='session')
+def sess_credential_types(w):
+    """One request of every operation kind (succeeding and failing) through the real session, with each credential
+    TYPE in the request header: Username/Password, Device (every field, incl. its password), Attestation (nonce,
+    measurement, assertion) - every secret-ish field a canary."""
+    DM, HA = E.DerivationMethod, E.HashingAlgorithm
+    for kind in ('password', 'device', 'attestation'):
+        auth = w.header_auth(kind)
+        key = w.can.new('key-material:session-' + kind, 32)
+        pt, iv = w.can.new('plaintext', 32), w.can.new('iv', 16)
+        uid = w.uid_of(w.one(_register_item(w, key), 'register for ' + kind, auth=auth))
+        w.one(kdrv.activate(uid), auth=auth)
+        reqs = [[_register_item(w, w.can.new('key-material:session-' + kind, 16))], [kdrv.create(ALG.AES, 128)], [kdrv.create_key_pair(ALG.RSA, 1024)],
+                [kdrv.get(uid)], [kdrv.get('4040')], [kdrv.get_attributes(uid)], [kdrv.get_attribute_list(uid)], [kdrv.locate()], [kdrv.query()],
+                [kdrv.discover_versions()], [kdrv.encrypt(uid, cparams(**CBC), pt, iv)], [kdrv.encrypt(uid, cparams(**CBC), pt, iv[:5])],
+                [kdrv.decrypt(uid, cparams(**CBC), pt, iv)], [kdrv.mac(uid, cparams(cryptographic_algorithm=ALG.HMAC_SHA256), pt)],
+                [kdrv.sign(uid, cparams(cryptographic_algorithm=ALG.RSA, padding_method=E.PaddingMethod.PSS, hashing_algorithm=HA.SHA_256), pt)],
+                [kdrv.derive_key([uid], DM.PBKDF2, dparams(cryptographic_parameters=cparams(hashing_algorithm=HA.SHA_256), salt=w.can.new('salt', 16), iteration_count=3))],
+                [kdrv.modify_attribute_v1(uid, kdrv.attr(AT.NAME, kdrv.name_value('n'), 0))], [kdrv.delete_attribute_v1(uid, 'Name', 0)],
+                [kdrv.destroy(uid)], [kdrv.revoke(uid)], [kdrv.destroy(uid)], [kdrv.get(uid), kdrv.get(None)]]
+        frames = b''.join(HH.encode_request(w, items, auth=auth, version=(1, 4)) for items in reqs)
+        HH.run_session(w, frames, label='every operation with a %s credential' % kind)
+        HH.run_session(w, HH.encode_request(w, [kdrv.get('1')], auth=auth, version=(1, 4)), cert=HH.make_cert(['mallory'], 'client'),
+                       label='%s credential, other certificate identity' % kind)
+        HH.run_session(w, HH.encode_request(w, [kdrv.get('1')], auth=auth, version=(1, 4)), cert=HH.make_cert(['alice', 'bob'], 'client'),
+                       label='%s credential, authentication fails' % kind)
+        w.one(kdrv.get(uid), 'engine: other user, %s credential' % kind, auth=auth, user='mallory')
+        w.one(kdrv.get(uid), 'engine: group user, %s credential' % kind, auth=auth, user='bob', groups=['g1'])
+
+
+@atom(layer='session')
+def sess_split_keys(w):
+    """Split Key objects with every split-key method and several prime field sizes (below / above the key part as a
+    number), Register + Get through the real session (decode of the request, encode of the response) and the engine."""
+    pw = w.can.new('password', 20, text=True).decode()
+    auth = HH.password_auth('alice', pw)
+    K = E.KeyFormatType
+    primes = [None, 257, 2 ** 61 - 1, 2 ** 127 - 1, 2 ** 255 - 19, 2 ** 521 - 1]
+    for method in E.SplitKeyMethod:
+        for prime in primes:
+            for n in (16, 32):
+                part = w.can.new('key-material:split-key-part', n)
+                def secret():
+                    return kdrv.core_secret(OT.SPLIT_KEY, cryptographic_algorithm=ALG.AES, cryptographic_length=n * 8, key_format_type=K.RAW,
+                                            key_value=part, key_wrapping_data=None, split_key_parts=3, key_part_identifier=1,
+                                            split_key_threshold=2, split_key_method=method, prime_field_size=prime)
+                lab = 'split key %s prime=%s part of %d bytes' % (method.name, prime if prime is None else '2^%d..' % prime.bit_length(), n)
+                try:
+                    frame = HH.encode_request(w, [kdrv.register(OT.SPLIT_KEY, secret()), kdrv.get(None)], auth=auth, version=(1, 4))
+                except Exception as e:      # the client side encoder refuses it: that text is the caller's own
+                    w.messages.append((len(w.trace), 'client-error', '%s: %s' % (type(e).__name__, e)))
+                    frame = None
+                if frame is not None:
+                    HH.run_session(w, frame, label=lab + ': Register + Get through the session')
+                # stored through the engine (no encoding involved), then fetched through the session (response encoding)
+                uid = w.uid_of(w.one(kdrv.register(OT.SPLIT_KEY, secret()), lab + ': Register through the engine'))
+                if uid:
+                    try:
+                        HH.run_session(w, HH.encode_request(w, [kdrv.get(uid)], auth=auth, version=(1, 4)), label=lab + ': Get through the session')
+                    except Exception as e:
+                        w.messages.append((len(w.trace), 'client-error', '%s: %s' % (type(e).__name__, e)))
+
+
 # ---------------------------------------------------------------------------------------------- server start-up
 @atom(layer='server')
 def server_startup(w):
@@ -1174,6 +1237,8 @@ CURATED = [
     ('session-auth', 'session', ['setup_keys', 'sess_auth_password', 'sess_slugs']),
     ('session-malformed', 'session', ['setup_keys', 'sess_malformed']),
     ('session-structured-failures', 'session', ['setup_keys', 'sess_structured_failures']),
+    ('session-credential-types', 'session', ['setup_keys', 'sess_credential_types']),
+    ('session-split-keys', 'session', ['sess_split_keys']),
     ('client-loopback', 'client', ['client_ops']),
     ('client-cut-responses', 'client', ['client_cut_responses']),
     ('client-config-files', 'client', ['client_config_files']),
